@@ -14,9 +14,10 @@ THEOREMS = ['Infini.c18_each_slice_once', 'Infini.c18_panel', 'Infini.c18_data',
             'Infini.infInitMapped_spec', 'Infini.initMappedDim_refines', 'Infini.choices_refines', 'Infini.lineIdx_panel',
             'Infini.lineIdx_style', 'Infini.lineIdx_hue', 'Infini.propIdx_refines', 'Infini.histCall_refines',
             'Infini.c18_init_order_src', 'Infini.c18_each_slice_once_src', 'Infini.c18_panel_src', 'Infini.c18_style_src',
-            'Infini.c18_hist_src']
+            'Infini.c18_hist_src', 'Infini.initOrder_refines', 'Infini.initAll_refines', 'Infini.styleDefaults_refines',
+            'Infini.c18_style_defaults_src']
 ANCHORS = ['markersDefault', 'linestylesDefault', 'infMaskBothNotNull',
-           'infInitMapped', 'infIter', 'infRanges', 'infLineIdx', 'infHistCall']
+           'infInitMapped', 'infIter', 'infRanges', 'infLineIdx', 'infHistCall', 'infInitCalls']
 RULE = ("each case = (explicit dataset with 2-5 dims of size 1-4, numeric/str coordinates, one variable with shuffled "
         "dimension order, cells = distinct dyadic floats / NaN incl. all-NaN coordinates and all-NaN lines; an injective "
         "assignment of up to 4 dimensions (single or fused pairs, optionally with an explicit order / sub-selection) to "
